@@ -31,7 +31,8 @@ def dec_config():
 
 FAULTS = ('truncated-record', 'oversized-length', 'undecodable-mti', 'unknown-bit', 'bad-field-length', 'bad-typed-value',
           'bad-pds', 'bad-icc', 'short-message', 'short-message-empty-bitmap', 'bare-mti', 'bad-decimal', 'last-element-cut-short',
-          'last-length-overstated', 'length-with-odd-numeral', 'length-negative', 'pds-length-with-odd-numeral')
+          'last-length-overstated', 'length-with-odd-numeral', 'length-negative', 'pds-length-with-odd-numeral',
+          'datetime-with-blank-or-sign')
 
 
 def owner(clause):
@@ -66,6 +67,11 @@ def inject(rec, kind, enc, r):
         odd = odd_numerals(enc)
         q = bytes(x).find('0023003'.encode(enc))
         x[q + 4 + r.randrange(3)] = odd[r.randrange(len(odd))]
+    elif kind == 'datetime-with-blank-or-sign':
+        # DE12 (yymmddHHMMSS) follows DE2 (2 + 16), DE3 (6), DE4 (12): a blank, a sign or a tab where a digit belongs
+        q = 20 + 18 + 6 + 12
+        pos, ch = ((10, ' '), (2, ' '), (6, '-'), (10, '+'), (6, ' '), (11, '\t'))[r.randrange(6)]
+        x[q + pos:q + pos + 1] = ch.encode(enc)
     elif kind == 'bad-typed-value':
         # DE4 follows DE2 (2 + 16) and DE3 (6)
         q = 20 + 18 + 6
